@@ -492,7 +492,8 @@ type verifThreadOp struct {
 	Ga  int  `json:"ga"`
 	Gb  int  `json:"gb"`
 	Gc  int  `json:"gc"`
-	S   bool `json:"s"` // SetCacheCtx(key, row Val)
+	S   bool `json:"s"`  // SetCacheCtx(key, row Val)
+	Cn  int  `json:"cn"` // which CachedConn value makes the call (0 NewConnWithCache, 1/3 NewNodeConn, 2 NewConn)
 	// further calls made by the same goroutine immediately after this one returns (no gates)
 	Then []verifThreadOp `json:"then"`
 }
@@ -769,7 +770,9 @@ func (e *verifConcEnv) quiesce() {
 				sb.WriteString(" p" + strconv.Itoa(int(g)))
 				continue
 			}
-			if atomic.LoadInt32(&t.inDoEx) == 1 && atomic.LoadInt32(&t.fnActive) == 0 {
+			if atomic.LoadInt32(&t.fnActive) == 0 {
+				// blocked in a sync wait without executing the shared function: a single-flight waiter (also when
+				// the flight group is not the wrapped package one)
 				if states == nil {
 					states = verifGoStates()
 				}
@@ -822,7 +825,14 @@ func verifRunConc(c verifCase) any {
 	defer func() { singleFlights = saved }()
 	node := cache.NewNode(redis.New(verifSrv.Addr()), singleFlights, stats, sql.ErrNoRows,
 		cache.WithExpire(time.Duration(c.Expire)*time.Second), cache.WithNotFoundExpire(time.Duration(c.NfExpire)*time.Second))
-	cc := NewConnWithCache(nil, node)
+	// several CachedConn values over the same Redis, built by separate constructor calls; a thread uses conns[Cn]
+	copts := []cache.Option{cache.WithExpire(time.Duration(c.Expire) * time.Second), cache.WithNotFoundExpire(time.Duration(c.NfExpire) * time.Second)}
+	conns := []CachedConn{
+		NewConnWithCache(nil, node),
+		NewNodeConn(nil, redis.New(verifSrv.Addr()), copts...),
+		NewConn(nil, cache.Config{{Config: redis.Config{Host: verifSrv.Addr(), Type: redis.NodeType}, Weight: 100}}, copts...),
+		NewNodeConn(nil, redis.New(verifSrv.Addr()), copts...),
+	}
 	keyName := func(k int) string { return fmt.Sprintf("%spk:%d", e.prefix, k) }
 
 	for i, op := range c.Threads {
@@ -845,6 +855,7 @@ func verifRunConc(c verifCase) any {
 				return // never scheduled
 			}
 			runOp := func(op verifThreadOp) any {
+				cc := conns[((op.Cn%len(conns))+len(conns))%len(conns)]
 				atomic.StoreInt32(&t.curGc, int32(op.Gc))
 				k := op.Key
 				if op.S {
